@@ -5,9 +5,11 @@ import (
 	"fmt"
 	"io"
 	"math/rand"
+	"runtime"
 	"sort"
 	"strings"
 	"sync"
+	"sync/atomic"
 	"time"
 
 	"verif/harness/internal/ev"
@@ -31,9 +33,9 @@ func init() { register("C11", runC11) }
 
 type c11Case struct {
 	Idx      int    `json:"idx"`
-	Allow    string `json:"allow_list"`   // nil | has | lacks
-	Override bool   `json:"cost_override"` // per-node cost override configured for the peer id
-	ID       string `json:"announced_id"`  // good | empty | own | dup
+	Allow    string `json:"allow_list"`     // nil | has | lacks
+	Override bool   `json:"cost_override"`  // per-node cost override configured for the peer id
+	ID       string `json:"announced_id"`   // good | empty | own | dup
 	Cost     string `json:"announced_cost"` // equal | diff | missing
 	FwdNeOrg bool   `json:"forwarder_differs_from_origin"`
 	Later    string `json:"later"` // none | consistent | changeid | dropnode | changecost | sessionend
@@ -324,71 +326,93 @@ func runC11Case(run *ev.Run, c *c11Case) {
 	run.Distinct("later|" + c.Later + "|" + fmt.Sprint(c.Override) + "|" + c.Allow + "|" + fmt.Sprint(c.FwdNeOrg))
 }
 
-// runC11Race: k sessions announce the same id at the same moment: exactly one may stay.
+// runC11Race: k sessions announce the same id at the same moment: exactly one may stay. One node serves several
+// rounds, each with a fresh id and fresh sessions (the admission window is narrow: many rounds are needed).
 func runC11Race(run *ev.Run, idx int, seed int64) {
 	rng := rand.New(rand.NewSource(seed))
 	n := c11Node("n")
 	defer n.Shutdown()
-	k := 2 + rng.Intn(7)
-	ss := make([]*memnet.Scripted, k)
-	for i := range ss {
-		ss[i] = memnet.NewScripted(fmt.Sprintf("r%d", i))
-		if err := n.AddBackend(memnet.NewOneShot(ss[i]), netceptor.BackendConnectionCost(1)); err != nil {
-			run.Inconclusive("C11 race: " + err.Error())
-			return
+	rounds := 10
+	for round := 0; round < rounds; round++ {
+		id := fmt.Sprintf("same%d", round)
+		k := 2 + rng.Intn(7)
+		ss := make([]*memnet.Scripted, k)
+		for i := range ss {
+			ss[i] = memnet.NewScripted(fmt.Sprintf("r%d-%d", round, i))
+			if err := n.AddBackend(memnet.NewOneShot(ss[i]), netceptor.BackendConnectionCost(1)); err != nil {
+				run.Inconclusive("C11 race: " + err.Error())
+				return
+			}
 		}
-	}
-	var wg sync.WaitGroup
-	start := make(chan struct{})
-	took := make([]time.Duration, k)
-	t0 := time.Now()
-	for i := range ss {
-		wg.Add(1)
-		go func(i int, jit time.Duration) {
-			defer wg.Done()
-			<-start
-			time.Sleep(jit)
-			took[i] = time.Since(t0)
-			ss[i].Deliver(wire.EncodeRoute(&wire.Route{NodeID: "same", UpdateID: fmt.Sprintf("r%d-%d", idx, i), UpdateEpoch: 4, UpdateSequence: 1, Connections: map[string]float64{"n": 1}, ForwardingNode: "same"}), 5*time.Second)
-			ss[i].Barrier(5 * time.Second)
-		}(i, time.Duration(rng.Intn(200))*time.Microsecond)
-	}
-	close(start)
-	wg.Wait()
-	// all but one must be turned away (closed by the node, with a reject message)
-	pollUntil(150, func() bool {
-		open := 0
+		var wg sync.WaitGroup
+		start := make(chan struct{})
+		took := make([]time.Duration, k)
+		t0 := time.Now()
+		// two thirds of the races release all sessions from a spin barrier (no sleeping: the handshakes reach the
+		// node's admission code within microseconds of each other), the rest are spread over 0-200 us
+		spin := (idx+round)%3 != 0
+		var arrived atomic.Int32
+		for i := range ss {
+			wg.Add(1)
+			go func(i int, jit time.Duration) {
+				defer wg.Done()
+				<-start
+				if spin {
+					arrived.Add(1)
+					for n := 0; arrived.Load() < int32(k); n++ {
+						if n > 20000 {
+							runtime.Gosched()
+						}
+					}
+				} else {
+					time.Sleep(jit)
+				}
+				took[i] = time.Since(t0)
+				ss[i].Deliver(wire.EncodeRoute(&wire.Route{NodeID: id, UpdateID: fmt.Sprintf("r%d-%d-%d", idx, round, i), UpdateEpoch: 4, UpdateSequence: 1, Connections: map[string]float64{"n": 1}, ForwardingNode: id}), 5*time.Second)
+				ss[i].Barrier(5 * time.Second)
+			}(i, time.Duration(rng.Intn(200))*time.Microsecond)
+		}
+		close(start)
+		wg.Wait()
+		// all but one must be turned away (closed by the node, with a reject message)
+		pollUntil(150, func() bool {
+			open := 0
+			for _, s := range ss {
+				if !s.Closed() {
+					open++
+				}
+			}
+			return open <= 1
+		})
+		open, rejected := 0, 0
 		for _, s := range ss {
 			if !s.Closed() {
 				open++
+			} else if hasReject(s) {
+				rejected++
 			}
 		}
-		return open <= 1
-	})
-	open, rejected := 0, 0
-	for _, s := range ss {
-		if !s.Closed() {
-			open++
-		} else if hasReject(s) {
-			rejected++
+		st := n.Status()
+		_, listed := connCost(st, id)
+		run.Eval(1)
+		switch {
+		case open > 1:
+			run.Violation("race:two-established", fmt.Sprintf("race %d round %d: %d of %d simultaneous sessions announcing the same id stay open", idx, round, open, k), map[string]any{"k": k, "connections": st.Connections})
+		case open == 0 || !listed:
+			run.Violation("race:none-established", fmt.Sprintf("race %d round %d: none of %d simultaneous sessions with an admissible id ended up established (open=%d listed=%v)", idx, round, k, open, listed), map[string]any{"k": k, "connections": st.Connections})
+		}
+		run.Count("race_reject_messages_received", int64(rejected))
+		// how close were the handshakes (measured)
+		sort.Slice(took, func(a, b int) bool { return took[a] < took[b] })
+		if k >= 2 && took[1]-took[0] < 500*time.Microsecond {
+			run.Distinct(fmt.Sprintf("race|k=%d", k))
+		}
+		run.Count("race_sessions", int64(k))
+		// the surviving session is ended before the next round
+		for _, s := range ss {
+			s.Close()
 		}
 	}
-	st := n.Status()
-	_, listed := connCost(st, "same")
-	run.Eval(1)
-	switch {
-	case open > 1:
-		run.Violation("race:two-established", fmt.Sprintf("race %d: %d of %d simultaneous sessions announcing the same id stay open", idx, open, k), map[string]any{"k": k, "connections": st.Connections})
-	case open == 0 || !listed:
-		run.Violation("race:none-established", fmt.Sprintf("race %d: none of %d simultaneous sessions with an admissible id ended up established (open=%d listed=%v)", idx, k, open, listed), map[string]any{"k": k, "connections": st.Connections})
-	}
-	run.Count("race_reject_messages_received", int64(rejected))
-	// how close were the handshakes (measured)
-	sort.Slice(took, func(a, b int) bool { return took[a] < took[b] })
-	if k >= 2 && took[1]-took[0] < 500*time.Microsecond {
-		run.Distinct(fmt.Sprintf("race|k=%d", k))
-	}
-	run.Count("race_sessions", int64(k))
 }
 
 // runC11DupNodes: two real nodes with one ID, started >= 1.1 s apart, attached anywhere in a mesh.
@@ -480,11 +504,11 @@ func runC11DupNodes(run *ev.Run, idx int, seed int64) {
 
 func runC11(tier string, args []string) {
 	run := ev.New("C11", tier, "exploration")
-	run.Rule("static product: allow-list {nil, contains, lacks} x per-node cost override x announced id {good, empty, own, already connected} x announced cost {equal, different, missing entry} x forwarder != origin x later behaviour {consistent, changes id, stops listing the node, changes cost, session ends}, each against a fresh real node with exact barriers; the harness evaluates the admission rules on the fields it sent and compares with Status(), the reject message and the session's fate. races: 2-8 sessions announcing one id within microseconds (exactly one may stay). duplicate ids: two real nodes with one id started 1.2-2 s apart at random attachment points of 3-5-node meshes. distinct_nontrivial = distinct rule-exercising classes + races whose first two handshakes were < 0.5 ms apart + twin placements")
+	run.Rule("static product: allow-list {nil, contains, lacks} x per-node cost override x announced id {good, empty, own, already connected} x announced cost {equal, different, missing entry} x forwarder != origin x later behaviour {consistent, changes id, stops listing the node, changes cost, session ends}, each against a fresh real node with exact barriers; the harness evaluates the admission rules on the fields it sent and compares with Status(), the reject message and the session's fate. races: 1500 rounds (thorough 15000) of 2-8 sessions announcing one fresh id, two thirds released from a spin barrier (exactly one may stay). duplicate ids: two real nodes with one id started 1.2-2 s apart at random attachment points of 3-5-node meshes. distinct_nontrivial = distinct rule-exercising classes + races whose first two handshakes were < 0.5 ms apart + twin placements")
 	run.Assume("a peer that never lists the node in its own updates (cost 'missing') is recorded, not judged: the statement only speaks of peers that stop listing it")
 	cases := c11Product()
 	reps := run.Pick(1, 6)
-	nRaces := run.Pick(40, 400)
+	nRaces := run.Pick(150, 1500)
 	nTwins := run.Pick(2, 20)
 	rng := rand.New(rand.NewSource(run.Seed*32452843 + 11))
 	sem := make(chan struct{}, 16)
